@@ -246,6 +246,72 @@ impl World {
         }
     }
 
+    /// Like [`World::build`], for session resumption and 0-RTT: the server keeps `sessions` (its
+    /// TLS session storage) across "restarts" and the client keeps `client_tls` (clones of a
+    /// rustls ClientConfig share the client-side session store); both sides enable 0-RTT.
+    pub async fn build_resumable(
+        cfg: &WorldCfg,
+        sessions: Arc<dyn rustls::server::StoresServerSessions + Send + Sync>,
+        client_tls: &rustls::ClientConfig,
+    ) -> World {
+        use rustls::pki_types::PrivateKeyDer;
+        let net = SimNet::new(cfg.net.clone(), server_addr());
+        {
+            let bytes: u64 = cfg.streams.iter().map(|s| s.size as u64 + s.reply as u64).sum();
+            let mut g = net.0.lock().unwrap();
+            g.summary.burst_cap = (4_000 + bytes / 100).min(u32::MAX as u64) as u32;
+            g.datagram_cap = (150_000 + bytes / 50).min(u32::MAX as u64) as u32;
+        }
+        tokio::spawn(net.pump());
+        let router = Arc::new(QuicRouter::default());
+        let manager = Arc::new(InterfaceManager::new());
+        let certs = CertificateDer::pem_slice_iter(SERVER_CERT).map(Result::unwrap).collect::<Vec<_>>();
+        let key = PrivateKeyDer::from_pem_slice(SERVER_KEY).unwrap();
+        let mut server_tls = rustls::ServerConfig::builder_with_protocol_versions(&[&rustls::version::TLS13])
+            .with_no_client_auth()
+            .with_single_cert(certs, key)
+            .unwrap();
+        server_tls.session_storage = sessions;
+        let listeners = QuicListeners::builder_with_tls(server_tls)
+            .with_router(router.clone())
+            .with_iface_factory(net.factory())
+            .with_iface_manager(manager.clone())
+            .with_parameters(server_params(&cfg.server))
+            .enable_0rtt()
+            .listen(128)
+            .expect("listen");
+        let a = server_addr();
+        listeners
+            .add_server(
+                "localhost",
+                SERVER_CERT,
+                SERVER_KEY,
+                [BindUri::from(format!("inet://{}:{}", a.ip(), a.port()).as_str())],
+                None,
+            )
+            .await
+            .expect("add_server");
+        let client = Arc::new(
+            QuicClient::builder_with_tls(client_tls.clone())
+                .with_router(router.clone())
+                .with_iface_factory(net.factory())
+                .with_iface_manager(manager.clone())
+                .with_parameters(client_params(&cfg.client))
+                .enable_0rtt()
+                .build(),
+        );
+        World { net, client, listeners, router }
+    }
+
+    /// rustls client configuration for [`World::build_resumable`] (trusts the test CA)
+    pub fn resumable_client_tls() -> rustls::ClientConfig {
+        let mut roots = rustls::RootCertStore::empty();
+        roots.add_parsable_certificates(CertificateDer::pem_slice_iter(CA_CERT).map(Result::unwrap));
+        rustls::ClientConfig::builder_with_protocol_versions(&[&rustls::version::TLS13])
+            .with_root_certificates(roots)
+            .with_no_client_auth()
+    }
+
     pub async fn connect(&self) -> Result<Connection, String> {
         self.client
             .connected_to_with_source("localhost", [(Source::System, server_addr().into())])
